@@ -34,7 +34,7 @@ ASSUMPTIONS = ['preemption inside a chunk is not enumerated; covered by the writ
                'oracle in exact rational arithmetic (fractions), compared at 1e-12 relative (float32 inputs: 1e-6)',
                'weak-memory reordering is out of reach of a baton scheduler',
                'the free-running pass (real libgomp, 1..16 threads) is a configuration sweep, not a schedule enumeration']
-GUARDS = {'metric_names': 6, 'wide_rows': 50, 'multi_enabled': 100, 'extreme_values': 1000, 'strided_out': 100, 'invalid_rejected': 40, 'isolation_runs': 50,
+GUARDS = {'sched_noncontiguous_layout': 10, 'metric_names': 6, 'wide_rows': 50, 'multi_enabled': 100, 'extreme_values': 1000, 'strided_out': 100, 'invalid_rejected': 40, 'isolation_runs': 50,
           'free_running_threads': 16}
 EXT = 'enspara.geometry.libdist'
 KERNELS = ('euclidean', 'manhattan', 'hamming')
@@ -257,7 +257,15 @@ def sched_inputs(dtype):
     for n in (1, 2, 3, 4):
         X = (np.arange(n * 2).reshape(n, 2) * 3 % 7).astype(dt)
         y = np.array([1, 2], dtype=dt)
-        out.append((X, y))
+        out.append((X, y, 'C'))
+    # the same values in the other memory layouts (a kernel may take another loop nest for them)
+    for n in (2, 4):
+        X = (np.arange(n * 3).reshape(n, 3) * 3 % 7).astype(dt)
+        y = np.array([1, 2, 4], dtype=dt)
+        out.append((np.asfortranarray(X), y, 'F'))
+        big = np.zeros((2 * n, 6), dtype=dt)
+        big[::2, ::2] = X
+        out.append((big[::2, ::2], y, 'strided'))
     return out
 
 
@@ -266,8 +274,10 @@ def check_sched(kernel, dtype, tier, ctx):
     from .. import sched
     fn = getattr(libdist, kernel)
     bound = 2 if tier == 'quick' else 4
-    for X, y in sched_inputs(dtype):
+    for X, y, lay in sched_inputs(dtype):
         n = len(X)
+        if lay != 'C':
+            ctx.guard('sched_noncontiguous_layout')
         want = np.array([oracle(kernel, row, y.tolist()) for row in X.tolist()])
         for T in list(range(1, n + 2)) + ([5, 8, 16] if n == 4 else []):
             outcomes = {}
@@ -280,13 +290,15 @@ def check_sched(kernel, dtype, tier, ctx):
 
             def on_exec(choices, pts, outcome, T=T):
                 ctx.ev()
-                ctx.state(('sched', kernel, dtype, n, T, choices), nontrivial=any(ne > 1 for ne, _ in pts))
+                ctx.state(('sched', kernel, dtype, n, lay, T, choices), nontrivial=any(ne > 1 for ne, _ in pts))
                 if any(ne > 1 for ne, _ in pts):
                     multi[0] += 1
                 outcomes[outcome] = choices
                 ctx.extra['schedules'] += 1
 
             b = bound if T <= n + 1 else 0
+            if lay != 'C':
+                b = min(b, 2)
             st = explore.dfs_choices(run, b, on_exec)
             if T > n + 1:
                 # reversed default order for large thread counts
@@ -295,7 +307,7 @@ def check_sched(kernel, dtype, tier, ctx):
                 p2, o2 = run(rev)
                 on_exec(tuple(rev), p2, o2)
             ctx.guard('multi_enabled', multi[0])
-            case = {'kind': 'sched', 'kernel': kernel, 'dtype': dtype, 'n': n, 'T': T}
+            case = {'kind': 'sched', 'kernel': kernel, 'dtype': dtype, 'n': n, 'T': T, 'layout': lay}
             if len(outcomes) != 1:
                 ctx.violation('%s:schedule_dependent' % kernel, dict(case, schedules=[list(c) for c in outcomes.values()]),
                               '%d distinct results over thread schedules (T=%d, n=%d): %r' % (
@@ -339,9 +351,13 @@ for kernel in ('euclidean', 'manhattan', 'hamming'):
     yw = ((np.arange(1500) * 31 %% 97) / 3.0).astype(np.float64)
     if kernel == 'hamming':
         Xw, yw = Xw.astype(np.int64), yw.astype(np.int64)
+    XF = np.asfortranarray(X)
+    XwF = np.asfortranarray(Xw[:, :256])
     for t in range(1, 17):
         gomp.omp_set_num_threads(t)
         res['%%s:%%d' %% (kernel, t)] = getattr(libdist, kernel)(X, y).tolist()
+        res['F:%%s:%%d' %% (kernel, t)] = [getattr(libdist, kernel)(XF, y).tolist() for rep in range(5)]
+        res['wideF:%%s:%%d' %% (kernel, t)] = [getattr(libdist, kernel)(XwF, yw[:256]).tobytes().hex() for rep in range(5)]
         res['wide:%%s:%%d' %% (kernel, t)] = getattr(libdist, kernel)(Xw, yw).tobytes().hex()
 print('RESULT' + json.dumps(res))
 import os; os._exit(0)
@@ -366,6 +382,14 @@ def check_free(ctx):
             ctx.state(('free', kernel, t))
             ctx.guard('free_running_threads')
             got = np.array(res['%s:%d' % (kernel, t)])
+            for rep in res['F:%s:%d' % (kernel, t)]:
+                if not np.allclose(np.array(rep), want, rtol=1e-12, atol=0):
+                    ctx.violation('%s:free_running_threads:fortran_order' % kernel, {'kind': 'free'},
+                                  'real libgomp with %d threads, Fortran-ordered X: %r != %r' % (t, rep, want.tolist()))
+                    break
+            if len(set(res['wideF:%s:%d' % (kernel, t)]) | set(res['wideF:%s:1' % kernel])) != 1:
+                ctx.violation('%s:thread_count_dependent:fortran_order' % kernel, {'kind': 'free'},
+                              'real libgomp: Fortran-ordered 5 x 256 input gives bitwise different results with %d threads / repeated calls' % t)
             if res['wide:%s:%d' % (kernel, t)] != res['wide:%s:1' % kernel]:
                 ctx.violation('%s:thread_count_dependent' % kernel, {'kind': 'free'},
                               'real libgomp: 5 x 1500 input gives a bitwise different result with %d threads than with 1' % t)
